@@ -4,7 +4,7 @@
    idealised by prims_ok P (MAC has fixed length; decrypt inverts encrypt on a handle with the same history; the cipher
    is length preserving).  Unforgeability appears as the premise `no_forgery` about the byte stream under attack. *)
 From Coq Require Import ZArith NArith List Bool Lia.
-From LT Require Import gen_Consts CodecModel AioModel AioLemmas AioRoundtrip AioIntegrity AioProgress AioTheorems.
+From LT Require Import gen_Consts CodecModel AioModel AioLemmas AioRoundtrip AioIntegrity AioProgress AioFits AioTheorems AioToy.
 Import ListNotations.
 Local Open Scope Z_scope.
 
@@ -52,19 +52,40 @@ Theorem C13_eventually_settled : forall P c nonce evs os st pipe n os2 st2 p2, (
   run P c nonce rstate0 [] evs = (os, st, pipe) ->
   (mu st pipe < n)%nat ->
   run P c nonce st pipe (repeat Call n) = (os2, st2, p2) ->
-  stream_deliveries P c nonce st2 p2 = [] \/ stuck st2 p2.
+  stream_deliveries P c nonce st2 p2 = [] \/ stuck P c st2 p2.
 Proof. exact eventually_settled. Qed.
 Print Assumptions C13_eventually_settled.
 
-(* ... hence every accepted sequence IS delivered completely, exactly once, in order, after any fragmentation *)
+(* an honest stream never gets there: every record an accepted Send writes is at most rec_bound P bytes
+   (Send refuses integers with 2*size >= buf_in_size; 3465 <= 4096 for HMAC-SHA256 / AES), so the bytes buffered without a
+   complete record are always a proper prefix of one record -- link_fits P is the numeric side condition *)
+Theorem C13_record_fits : forall P c iv,
+  (forall x, length (mac P x) = maclen P) -> (forall h p, length (c_enc P h p) = length p) ->
+  (forall h p, isbytes p -> isbytes (c_enc P h p)) ->
+  forall st m w st', 0 <= s_chunk st -> send P c iv st m = Some (w, st') ->
+  blen w <= (if encr c && negb (s_iv_sent st) then blen iv else 0) + rec_bound P.
+Proof. exact send_len. Qed.
+Print Assumptions C13_record_fits.
+
+Theorem C13_honest_never_stuck : forall P c iv ms w sst evs os st pipe,
+  prims_ok P -> link_fits P -> length iv = blklen P ->
+  send_all P c iv (sstate0 c iv) ms = Some (w, sst) ->
+  fed evs = w ->
+  run P c iv rstate0 [] evs = (os, st, pipe) ->
+  ~ stuck P c st pipe.
+Proof. exact honest_never_stuck. Qed.
+Print Assumptions C13_honest_never_stuck.
+
+(* ... hence every accepted sequence IS delivered: completely, exactly once, in order, after any fragmentation and any
+   call pattern, once Receive has been called more than mu times after the last byte arrived *)
 Theorem C13_roundtrip_eventually : forall P c iv ms w sst evs os st pipe n os2 st2 p2,
-  prims_ok P -> length iv = blklen P ->
+  prims_ok P -> link_fits P -> length iv = blklen P ->
   send_all P c iv (sstate0 c iv) ms = Some (w, sst) ->
   fed evs = w ->
   run P c iv rstate0 [] evs = (os, st, pipe) ->
   (mu st pipe < n)%nat ->
   run P c iv st pipe (repeat Call n) = (os2, st2, p2) ->
-  delivered os ++ delivered os2 = ms \/ stuck st2 p2.
+  delivered os ++ delivered os2 = ms.
 Proof. exact roundtrip_eventually. Qed.
 Print Assumptions C13_roundtrip_eventually.
 
@@ -104,7 +125,7 @@ Print Assumptions C13_mac_input_injective.
    every (line, tag) in s whose tag verifies for some sequence number was computed by the sender for that number),
    and any schedule, the values delivered are a prefix of the values sent: nothing modified, inserted, replayed,
    reordered, and nothing delivered after a removed message.  The IV of a CFB link must be intact (it is not covered by
-   the MAC, see C13_iv_tamper in docs/C13.md); on a CTR link any block may stand in its place. *)
+   the MAC: C13_integrity_iv_tamper_refuted below); on a CTR link any block may stand in its place. *)
 Theorem C13_channel_integrity : forall P c iv iv' ms recs s evs os st pipe,
   prims_ok P -> length iv = blklen P -> length iv' = blklen P -> (ctr_mode c = false -> iv' = iv) ->
   auth c = true ->
@@ -123,48 +144,39 @@ Theorem C13_stream_integrity : forall P c iv iv' ms recs s,
 Proof. exact stream_integrity. Qed.
 Print Assumptions C13_stream_integrity.
 
+(* links without encryption have no IV: integrity with no premise about one *)
+Theorem C13_channel_integrity_auth_only : forall P c iv ms recs evs os st pipe,
+  prims_ok P -> auth c = true -> encr c = false ->
+  trace P c iv (sstate0 c iv) ms recs -> no_forgery P 1 recs (fed evs) ->
+  run P c iv rstate0 [] evs = (os, st, pipe) ->
+  delivered os = firstn (length (delivered os)) ms.
+Proof. exact channel_integrity_auth_only. Qed.
+Print Assumptions C13_channel_integrity_auth_only.
+
+(* the 'IV intact' premise of C13_channel_integrity cannot be dropped on an encrypted stream-mode link (known finding
+   tamper-iv): "only the IV block replaced, every record untouched => deliveries are a prefix of what was sent" is
+   REFUTED; witness (toy cipher with a CFB-like register, sent 5,7,9, IV [3;9] -> [4;9]): delivered 7,9 -- the first
+   message is dropped unnoticed, the later ones are delivered *)
+Theorem C13_integrity_iv_tamper_refuted : ~ iv_free_integrity.
+Proof. exact iv_tamper_refuted. Qed.
+Print Assumptions C13_integrity_iv_tamper_refuted.
+
+Theorem C13_iv_tamper_witness :
+  send_all toyP toy_c [3; 9]%N (sstate0 toy_c [3; 9]%N) [5; 7; 9] <> None /\
+  stream_deliveries toyP toy_c [3; 9]%N rstate0 ([3; 9]%N ++ skipn 2 toy_w) = [5; 7; 9] /\
+  stream_deliveries toyP toy_c [3; 9]%N rstate0 ([4; 9]%N ++ skipn 2 toy_w) = [7; 9].
+Proof. exact iv_tamper_witness. Qed.
+Print Assumptions C13_iv_tamper_witness.
+
 (* the trace premise is satisfiable for every accepted session *)
 Theorem C13_trace_exists : forall P c iv, prims_ok P -> forall ms st w st', 0 <= s_chunk st ->
   send_all P c iv st ms = Some (w, st') -> exists recs, trace P c iv st ms recs.
 Proof. exact trace_exists. Qed.
 Print Assumptions C13_trace_exists.
 
-(* ---- non-vacuity: primitives meeting prims_ok, accepted sessions in the modes, a complete run ------------------ *)
-Definition toy_key (h : chist) : N :=     (* depends on the most recent operation only, like a CFB register *)
-  match h with
-  | OpIV x :: _ | OpCtr x :: _ | OpData x :: _ => (fold_left N.add x 1) mod 256
-  | [] => 1
-  end%N.
-Definition toyP : prims :=
-  {| maclen := 2; mac := fun x => [(N.of_nat (length x)) mod 256; (fold_left N.add x 7) mod 256]%N; blklen := 2;
-     c_enc := fun h p => map (fun b => if (b <? 256)%N then ((b + toy_key h) mod 256)%N else b) p;
-     c_dec := fun h p => map (fun b => if (b <? 256)%N then ((b + 256 - toy_key h) mod 256)%N else b) p |}.
-
-Example C13_nonvacuous_prims : prims_ok toyP.
-Proof.
-  assert (K : forall h, (toy_key h < 256)%N).
-  { intros h. unfold toy_key. destruct h as [|[x|x|x] r]; try (apply N.mod_lt; discriminate). reflexivity. }
-  constructor.
-  - cbn. lia.
-  - reflexivity.
-  - intros h p F. cbn [toyP c_enc c_dec]. rewrite map_map. rewrite <- (map_id p) at 2. apply map_ext_in.
-    intros b Hb. unfold isbytes in F. rewrite Forall_forall in F. specialize (F b Hb). specialize (K h).
-    destruct (N.ltb_spec b 256); [|lia].
-    destruct (N.ltb_spec ((b + toy_key h) mod 256) 256) as [_|X]; [|pose proof (N.mod_lt (b + toy_key h) 256); lia].
-    destruct (N.ltb_spec (b + toy_key h) 256).
-    + rewrite (N.mod_small (b + toy_key h)) by assumption.
-      replace (b + toy_key h + 256 - toy_key h)%N with (b + 1 * 256)%N by lia.
-      rewrite N.mod_add by discriminate. now apply N.mod_small.
-    + replace ((b + toy_key h) mod 256)%N with (b + toy_key h - 256)%N
-        by (apply N.mod_unique with 1%N; lia).
-      replace (b + toy_key h - 256 + 256 - toy_key h)%N with b by lia. now apply N.mod_small.
-  - intros h p. cbn. apply map_length.
-  - intros h p F. cbn [toyP c_enc]. unfold isbytes in *. rewrite Forall_forall in *. intros x Hx.
-    apply in_map_iff in Hx. destruct Hx as [b [<- Hb]]. specialize (F b Hb).
-    destruct (N.ltb_spec b 256); [apply N.mod_lt; discriminate|lia].
-Qed.
-
-Definition cfg_of (a e ch nb : bool) : cfg := {| auth := a; encr := e; chunked := ch; nonblock := nb |}.
+(* ---- non-vacuity: primitives meeting prims_ok and link_fits (AioToy.v), accepted sessions in the modes, a complete run -- *)
+Example C13_nonvacuous_prims : prims_ok toyP /\ link_fits toyP.
+Proof. exact (conj toy_prims_ok toy_link_fits). Qed.
 Definition toy_wire (c : cfg) (ms : list Z) : bytes :=
   match send_all toyP c [3; 9]%N (sstate0 c [3; 9]%N) ms with Some (w, _) => w | None => [] end.
 Definition toy_msgs : list Z := [0; 5; 2 ^ 256; 4242424242].
